@@ -83,12 +83,12 @@ def build(c):
 
 def gen_cases(rng, tier):
 	cases = []
-	for kind in ('server', 'client'):
+	for kind in ('server', 'client', 'client-connect'):
 		for ver in ('1.1', '1.0'):
 			for cl in CL_FORMS:
 				for te in TE_FORMS:
 					for payload in (b'', b'abcde'):
-						trs = TRAILERS if (te and te.lower() == 'chunked' and cl in (None, 'right', 'small')) else TRAILERS[:1]
+						trs = TRAILERS if (te and te.lower() == 'chunked' and cl in (None, 'right', 'small') and kind != 'client-connect') else TRAILERS[:1]
 						if tier == 'quick' and len(trs) > 1 and payload == b'':
 							trs = TRAILERS[:6]
 						for ann, tf in trs:
@@ -115,12 +115,12 @@ def gen_cases(rng, tier):
 		for _ in range(3000):
 			kind = rng.choice(['server', 'client'])
 			s = streams.gen_stream(rng, kind, mutate_p=.2)
-			cases.append({'k': 'stream', 'kind': kind, 's': s.hex(), 'cuts': [[], list(range(1, len(s)))][:1 + (len(s) < 300)]})
+			cases.append({'k': 'stream', 'kind': 'client-connect' if kind == 'client' and rng.random() < .2 else kind, 's': s.hex(), 'cuts': [[], list(range(1, len(s)))][:1 + (len(s) < 300)]})
 	else:
 		for _ in range(150):
 			kind = rng.choice(['server', 'client'])
 			s = streams.gen_stream(rng, kind, mutate_p=.2)
-			cases.append({'k': 'stream', 'kind': kind, 's': s.hex(), 'cuts': [[]]})
+			cases.append({'k': 'stream', 'kind': 'client-connect' if kind == 'client' and rng.random() < .2 else kind, 's': s.hex(), 'cuts': [[]]})
 	return cases
 
 
@@ -197,7 +197,8 @@ def oracle(c, o):
 		if c['k'] == 'framing':
 			s, hnames, chunked_wire = build(c)
 			d, e, left = pc.summary(r)
-			if chunked_wire and c['tr_fields'] and r['calls'] and c['cl'] in (None, 'right', 'small'):
+			# (a client machine answering a CONNECT request ignores the framing fields of a successful response: no trailer section is read)
+			if chunked_wire and c['tr_fields'] and r['calls'] and c['cl'] in (None, 'right', 'small') and c['kind'] != 'client-connect':
 				announced = set()
 				if c['tr_announce']:
 					announced = set(x.strip().lower() for x in c['tr_announce'].split(','))
